@@ -87,6 +87,11 @@ CHECKS = {
             "Every public equation of every catalogue module is decided: the linear system of dimensional requirements is satisfiable (homogeneous for every value of the symbols, wildcards chosen existentially) or z3's unsat core names the conflicting sub-terms. Exhaustive over the catalogue; node types outside the rule list are reported unencoded.",
             "Trusted: z3 QF_LRA, sympy get_dimensional_dependencies on declared dimensions, the rule set of vlib/dimlra.py (DESIGN 3.1).",
             "3.1"),
+    "C02": ("L+S", "other",
+            "every calculate_* function called through its validators on quantities with symbolic scale factors (lifted native execution, forks at comparisons/zero tests); returned expression substituted into the module's published equation; residual decided by z3 (QF_NRA) over all magnitudes",
+            "For each function that survives lifted execution (counted; the rest is listed unencoded with the reason) z3 decides on every path that the returned value satisfies the published law for ALL magnitudes of the arguments in the domain (positive reals in the quick tier; all reals in the thorough tier), magnitude/ceiling results being judged on their argument.",
+            "Trusted: z3 nlsat, Sym2SMT, vlib/lift.py stubs incl. Quantity._eval_is_positive and float(); SymPy solve/subs run as part of the code under test. Float literals are read as the short rationals they were written as. Differential/integral/sum laws, sequence/vector/integer parameters and vector-law inverse pairs are outside in this revision.",
+            "3.2"),
 }
 
 NOT_APPLICABLE = {
